@@ -20,10 +20,8 @@ TRUSTED = ["Coq 8.16.1 kernel + vm_compute", "Rust executor /verif/harness (Rat 
 ASSUMPTIONS = ["Rust semantics of Vec/usize as modelled (checked indexing, debug overflow checks)", "the sampled cases are where model and code were compared; the theorems are about the model",
                "norms_real only: the four standard-library axioms of the classical real numbers",
                "norm_frob / norm_p at p = 2 of the float model use x*x for f64::powf(x, 2.0) and sqrt for powf(s, 0.5) (libm's pow is not specified to be correctly rounded: compared by tolerance)"]
-UNPROVED = ["norms_real, p-norm clause: stated with Coq's Rpower, for which Rpower 0 p = 1 (ln 0 = 0 by convention) whereas f64::powf(0, p) = 0 for p > 0: the clause "
-            "describes the order of operations (sum of p-th powers, then the 1/p-th power) and is meaningful on matrices without zero entries only; the value of norm_p on the "
-            "implementation is compared with an independent python reference by tolerance, entries equal to zero included",
-            "round two: matvec_backward_error / matmul_backward_error (fl(Ax) = (A+dA)x, |dA| <= gamma_n |A|) in the standard model and at binary64 via Flocq; accuracy of the f64 norms and of libm's powf inside norm_p remains tie + search (the norm theorems are over exact order/real arithmetic with powf as a parameter)",
+UNPROVED = ["norms_real's p-norm clause is stated with Coq's Rpower (Rpower 0 p = 1) and is wrong on matrices with zero entries (norm_p_Rpower_wrong_at_zero makes that concrete); the correct statement is norm_p_real (power function pw with 0^p = 0), with norm_p_real_1 / _2 (entrywise 1-norm, Frobenius), bounds, the norm axioms, Minkowski for p >= 1 (norm_p_triangle), submultiplicativity of norm_1 / norm_inf / norm_frob (matnorm_submult; refuted for norm_max), consistency with the vector norms; NOT proved: submultiplicativity of norm_p for 1 <= p <= 2 (Hoelder); at binary64 a NaN entry is ignored by f64::max (norm_1 [[NaN]] = 0: matnorm_float_nan_ignored pins what the code does; outside the property's quantifier)",
+            "round two: matvec_backward_error / matmul_backward_error (fl(Ax) = (A+dA)x, |dA| <= gamma_n |A|) in the standard model and at binary64 via Flocq; rounding bounds of norm_1 / norm_inf / norm_max / norm_frob in the standard model and at binary64 (mnorm_*_rounding, mnorm_*_float); libm's powf inside norm_p at general p remains tie + search (the norm theorems are over exact order/real arithmetic with powf as a parameter)",
             "history refinement (run_refines) covers the 18 checked editing operations; the raw (i,j) writes m[(i,j)]= / swap_elem (unchecked addressing, outside the claim) and /= scalar (own theorem mdiv_assign_scalar_spec) are tied and searched only",
             "operand non-mutation / owned=borrowed are run-time observations of the executor (a value model satisfies them vacuously)"]
 
